@@ -19,6 +19,7 @@ TEXT = ("Decides the four structural lemmas the implementation's convergence arg
         "the other two item classes, and the success of the verified read (no further selection). Relies on C05 (deterministic winner), "
         "C18 (no order taint), C19 (canonical identifiers), C10/C11 (verified, content-named items). Does not decide "
         "equality of the merged *values* over all histories and delivery orders.")
+TECHNIQUE = 'static analysis over rustc MIR: who-may-write on the revision map, post-dominance of re-validation through rayon closures, iteration-source typing, guard-literal whitelist on meld copies'
 TRUSTED = ["rustc nightly MIR", "HashMap keyed insert / BTreeSet order semantics", "C05, C18, C19, C10, C11"]
 
 TREE = "revisiontree::RevisionTree"
